@@ -103,7 +103,7 @@ class PeatclsmSpecificYield(SpecificYield):
         zl_ = np.linspace(-1, 1, 201)
         zu_ = np.linspace(-0.99, 1.01, 201)
         Sy1_soil = np.empty((201,), dtype='float64')
-        Sy1_soil[:] = np.NaN
+        Sy1_soil[:] = np.nan
         self.get_Sy_soil(Sy1_soil, zl_, zu_)
         zeta_knots_m = 0.5 * (zu_ + zl_)
         Sy1_surface = scipy.stats.norm.cdf(zeta_knots_m, loc=0, scale=self.sd)
